@@ -61,6 +61,7 @@ type PAction struct {
 	Memo []PHop  `json:"memo,omitempty"`
 	Exp  int64   `json:"exp,omitempty"`
 	Pkt  *PPkt   `json:"pkt,omitempty"`
+	On   *bool   `json:"on,omitempty"` // SetSend: new value of the transfer parameter SendEnabled of chain C
 }
 
 type PBal struct {
@@ -98,6 +99,7 @@ type PState struct {
 	Sup []PSup `json:"sup"`
 	Inf []PInf `json:"inf"`
 	Ns  []PNs  `json:"ns"`
+	Off []string `json:"off"` // chains whose transfer parameter SendEnabled is false
 }
 
 type PWAck struct {
@@ -483,6 +485,17 @@ func (w *PFMWorld) Exec(a PAction) (line PLine) {
 		line.Res, line.Xi, line.Err = w.exportImport(a.C)
 		return line
 
+	case "SetSend":
+		if w.ch[a.C] == nil || a.On == nil {
+			w.blockAt("A", w.finalTime())
+			line.Res, line.Err = "err", "bad SetSend"
+			return line
+		}
+		cur := w.ch[a.C].GetSimApp().TransferKeeper.GetParams(w.ch[a.C].GetContext())
+		m := transfertypes.NewMsgUpdateParams(authority(), transfertypes.NewParams(*a.On, cur.ReceiveEnabled))
+		line.Res, line.Err = w.authorityTx(a.C, m, m.ValidateBasic)
+		return line
+
 	case "Transfer":
 		l := w.links[a.L]
 		e := l.ep(a.C)
@@ -557,7 +570,7 @@ func (w *PFMWorld) Exec(a PAction) (line PLine) {
 
 // State projects balances of the tracked accounts, supplies, in-flight forward records and sequences of all chains.
 func (w *PFMWorld) State() PState {
-	st := PState{Now: w.now, Bal: []PBal{}, Sup: []PSup{}, Inf: []PInf{}, Ns: []PNs{}}
+	st := PState{Now: w.now, Bal: []PBal{}, Sup: []PSup{}, Inf: []PInf{}, Ns: []PNs{}, Off: []string{}}
 	skip := map[string]bool{sdk.DefaultBondDenom: true, ibctesting.SecondaryDenom: true}
 	for _, c := range w.names {
 		chain := w.ch[c]
@@ -609,6 +622,9 @@ func (w *PFMWorld) State() PState {
 			}
 			return false
 		})
+		if !app.TransferKeeper.GetParams(ctx).SendEnabled {
+			st.Off = append(st.Off, c)
+		}
 		gs := app.PFMKeeper.ExportGenesis(ctx)
 		for key, rec := range gs.InFlightPackets {
 			parts := strings.Split(key, "/") // channel/port/sequence
